@@ -365,6 +365,19 @@ def run_big(c):
             exp = np.einsum("nji,nj->ni", np.linalg.inv(A.astype(float)), lines)  # l' = M^-T l
             z = _Flat(z, 1)
             ck.check(z.ok and C.peq_all(z.array, exp, 1, 1e-7), site + ":t*lines")
+        if len(grid) >= 2:
+            # a collection of lines with one collection axis more than the transformations (three layers): transformation [j, k] acts on the lines
+            # [i, j, k] of every layer i
+            layers = np.stack([lines, np.roll(lines, 1, axis=1) + np.array([1.0, 0, 0]), lines[::-1] * 2.0])
+            layers[~np.any(layers, axis=2), 0] = 1
+            L3 = G.LineCollection(layers.reshape((3,) + grid + (n,)))
+            z3, f = call(site + ":apply-lines-with-an-extra-axis", lambda: t * L3)
+            if f:
+                ck.add(f)
+            elif ck.check(np.asarray(z3.array).shape == (3,) + grid + (n,), site + ":t*lines-with-an-extra-axis:shape", np.asarray(z3.array).shape):
+                exp3 = np.einsum("nji,lnj->lni", np.linalg.inv(A.astype(float)), layers)
+                got3 = np.asarray(z3.array).reshape((3, size, n))
+                ck.check(all(C.peq_all(got3[i], exp3[i], 1, 1e-7) for i in range(3)), site + ":t*lines-with-an-extra-axis", "")
     return ck.result()
 
 
